@@ -306,7 +306,7 @@ def convert_to_bytes(size: int | float | str) -> int:
         if is_numeric_str(size):
             unit_factor = 1
             value = size
-        elif size[-1] == "B" and is_numeric_str(size[:-1]):
+        elif size[-1:] == "B" and is_numeric_str(size[:-1]):
             unit_factor = 1
             value = size[:-1]
         elif size[-2:] in units and is_numeric_str(size[:-2]):
